@@ -25,7 +25,7 @@ type totalCase struct {
 	Src   []int  `json:"src"`
 	Shape  string `json:"shape"`
 	N      int    `json:"n"`
-	Expect string `json:"expect"`
+	Expect []int  `json:"expect"`
 	NT     bool   `json:"nt"`
 }
 
@@ -53,12 +53,41 @@ func scaleSource(shape string, n int) string {
 		if shape == "many-vars-in-block" {
 			sb.WriteString("}\n")
 		}
-	case "long-and", "long-or":
+	case "vars-distinct", "vars-distinct-end":
+		if shape == "vars-distinct-end" {
+			sb.WriteString("def b {\n")
+		}
+		for i := 0; i < n; i++ {
+			fmt.Fprintf(&sb, "var v%d = %d\n", i, 100+i)
+		}
+		if shape == "vars-distinct" {
+			fmt.Fprintf(&sb, "print v0 + v%d\n", n-1)
+		} else {
+			sb.WriteString("}\n") // the block and then the program end right after the last declaration
+			for i := 0; i < n; i++ {
+				fmt.Fprintf(&sb, "var w%d = %d\n", i, 100+i)
+			}
+		}
+	case "same-print":
+		sb.WriteString([]string{
+			"var a = 2.5\ndef r \"2.5\" { f = 1 }\nprint a\n",
+			"var a = 3.0\ndef r \"3\" {}\nprint a + 1\n",
+			"print \"2.5\" + 1\nprint 2.5 + 1\n",
+			"var a = 7\nprint \"7\" + a\ndef b \"7\" {}\n",
+			"def x \"true\" { f = true }\nprint \"true\"\n",
+			"print 0.5\nprint \"0.5\"\ndef k \"0.5\" { }\nprint 1 and (0.25 or \"0.25\")\ndef k \"0.25\" {}\n",
+		}[n%6])
+	case "long-and", "long-or", "long-and-nt", "long-or-nt":
 		m := (n - 2) / 2
 		op := "and"
 		first := "0" // the run that takes the short-circuit jump
-		if shape == "long-or" {
+		switch shape {
+		case "long-or":
 			op, first = "or", "1"
+		case "long-and-nt":
+			first = "1"
+		case "long-or-nt":
+			op, first = "or", "0"
 		}
 		sb.WriteString("print " + first + " " + op + " (1" + strings.Repeat("+1", m) + ")\n")
 	case "repeat":
@@ -271,15 +300,24 @@ func replayTotal(args []string) int {
 		}
 		var rs []totalRes
 		json.Unmarshal(rep.line, &rs)
-		if c.Expect != "" {
-			// shapes whose outcome the specification states in closed form (jump distance limit)
+		if len(c.Expect) > 0 {
+			// shapes whose outcome the specification states in closed form
 			var out bytes.Buffer
-			_, _, ierr := bcl.Interpret(src, bcl.OptOutput(&out), bcl.OptLogger(io.Discard))
+			var ierr error
+			func() {
+				defer func() {
+					if r := recover(); r != nil {
+						ierr = fmt.Errorf("PANIC: %v", r)
+					}
+				}()
+				_, _, ierr = bcl.Interpret(src, bcl.OptOutput(&out), bcl.OptLogger(io.Discard))
+			}()
+			want := string(bytesOf(c.Expect))
 			switch {
-			case c.Expect == "compile-error" && (ierr == nil || strings.HasPrefix(ierr.Error(), "runtime error")):
-				s.bad(fmt.Sprintf("%s n=%d: a jump distance beyond 65535 must be rejected at compile time, got err=%v out=%q", c.Shape, c.N, ierr, out.String()), "limit:jump-accepted", raw, out.String(), true)
-			case strings.HasPrefix(c.Expect, "prints:") && (ierr != nil || out.String() != strings.TrimPrefix(c.Expect, "prints:")+"\n"):
-				s.bad(fmt.Sprintf("%s n=%d: expected to print %s, got err=%v out=%q", c.Shape, c.N, strings.TrimPrefix(c.Expect, "prints:"), ierr, trunc(out.Bytes(), 80)), "limit:jump-result", raw, string(trunc(out.Bytes(), 200)), true)
+			case want == "c" && (ierr == nil || strings.HasPrefix(ierr.Error(), "runtime error")):
+				s.bad(fmt.Sprintf("%s n=%d: a jump distance beyond 65535 must be rejected at compile time, got err=%v out=%q", c.Shape, c.N, ierr, trunc(out.Bytes(), 60)), "limit:jump-accepted", raw, string(trunc(out.Bytes(), 200)), true)
+			case want != "c" && (ierr != nil || out.String() != want+"\n"):
+				s.bad(fmt.Sprintf("%s n=%d: the language says it prints %s, got err=%v out=%q", c.Shape, c.N, want, ierr, trunc(out.Bytes(), 80)), "scale:result:"+c.Shape, raw, string(trunc(out.Bytes(), 200)), true)
 			}
 		}
 		for _, r := range rs {
